@@ -131,10 +131,29 @@ Proof. unfold py_cp_pre, py_shr_pre_process, py_nop_pre_process, cp_pre. now des
 Lemma py_cp_post_spec x hp c : py_cp_post x hp c = Ok (cp_post hp c x).
 Proof. unfold py_cp_post, py_shr_post_process, py_nop_post_process, cp_post. now destruct hp. Qed.
 
+(* The spec lemmas below are proved semantically (range tests by arithmetic, values bit by bit), so that a
+   behaviour-preserving rewrite of the source lines still checks, while a change of behaviour does not. *)
+Ltac norm_shift := rewrite ?shiftl1_ones by lia; rewrite ?shiftl1_pow by lia.
+Ltac split_cmp :=
+  repeat match goal with
+         | |- context [Z.leb ?a ?b] => destruct (Z.leb_spec a b)
+         | |- context [Z.ltb ?a ?b] => destruct (Z.ltb_spec a b)
+         end.
+Ltac bits_eq :=
+  apply Z.bits_inj'; let n := fresh "n" in let Hn := fresh "Hn" in intros n Hn;
+  unfold setbits, getbits, fieldmask;
+  repeat (rewrite ?Z.lor_spec, ?Z.land_spec, ?Z.lnot_spec, ?Z.shiftl_spec, ?Z.shiftr_spec, ?testbit_ones_full by lia);
+  split_cmp; try (exfalso; lia); cbn [andb orb negb];
+  repeat match goal with |- context [Z.testbit ?x ?i] => destruct (Z.testbit x i) end; reflexivity.
+Ltac same_test := (* two range tests over the same numbers *)
+  norm_shift; match goal with |- context [2 ^ ?w] => pose proof (Z.ones_equiv w) end; lia.
+
 Lemma py_bf_get_spec rv off w hp c : 0 <= w ->
   py_bf_get rv off w hp c = Ok (cp_post hp c (getbits rv off w)).
 Proof.
-  intros Hw. unfold py_bf_get. cbv zeta. rewrite py_cp_post_spec, shiftl1_ones by assumption. reflexivity.
+  intros Hw. unfold py_bf_get. cbv zeta. norm_shift.
+  match goal with |- context [py_cp_post ?e hp c] => replace e with (getbits rv off w) by bits_eq end.
+  rewrite py_cp_post_spec. reflexivity.
 Qed.
 
 Definition out_of_range (p w : Z) : bool := (p <? 0) || (2 ^ w <=? p).
@@ -144,25 +163,34 @@ Lemma py_bf_set_spec x rv off w hp c np : 0 <= w ->
   let p := if np then x else cp_pre hp c x in
   if out_of_range p w then Err 1%N else Ok (setbits rv off w p).
 Proof.
-  intros Hw. unfold py_bf_set, out_of_range, setbits, fieldmask. cbv zeta.
-  destruct np; cbn [negb]; try rewrite py_cp_pre_spec; rewrite shiftl1_ones, shiftl1_pow by assumption;
-    match goal with |- context [if ?c then _ else _] => destruct c end; reflexivity.
+  intros Hw. unfold py_bf_set, out_of_range. cbv zeta.
+  destruct np; cbn [negb]; rewrite ?py_cp_pre_spec; cbv beta iota; norm_shift;
+    match goal with
+    | |- (if ?c1 then ?e else Ok ?v1) = (if ?c2 then _ else Ok ?v2) =>
+        replace c1 with c2 by (pose proof (Z.ones_equiv w); lia); replace v1 with v2 by bits_eq; reflexivity
+    end.
 Qed.
 
 Lemma py_reg_check_spec v w : 0 <= w ->
   py_reg_check v w = if out_of_range v w then Err 1%N else Ok v.
-Proof. intros Hw. unfold py_reg_check, out_of_range. now rewrite shiftl1_pow. Qed.
+Proof.
+  intros Hw. unfold py_reg_check, out_of_range. norm_shift.
+  match goal with
+  | |- (if ?c1 then ?e else Ok ?v1) = (if ?c2 then _ else Ok ?v2) =>
+      replace c1 with c2 by (pose proof (Z.ones_equiv w); lia); reflexivity
+  end.
+Qed.
 
 Definition sub_pos (W index sw : Z) (rev : bool) : Z := if rev then W - index * sw else (index - 1) * sw.
 
 Lemma py_sub_pos_set_spec aw i sw rev : py_sub_pos_set aw i sw rev = Ok (sub_pos aw i sw rev).
-Proof. unfold py_sub_pos_set, sub_pos. now destruct rev. Qed.
+Proof. unfold py_sub_pos_set, sub_pos. destruct rev; cbv zeta; f_equal; first [reflexivity | ring]. Qed.
 Lemma py_sub_pos_get_spec W i sw rev : py_sub_pos_get W i sw rev = Ok (sub_pos W i sw rev).
-Proof. unfold py_sub_pos_get, sub_pos. now destruct rev. Qed.
+Proof. unfold py_sub_pos_get, sub_pos. destruct rev; cbv zeta; f_equal; first [reflexivity | ring]. Qed.
 Lemma py_sub_slice_spec v pos sw : 0 <= sw -> py_sub_slice v pos sw = Ok (getbits v pos sw).
-Proof. intros H. unfold py_sub_slice, getbits. now rewrite shiftl1_ones. Qed.
+Proof. intros H. unfold py_sub_slice. cbv zeta. norm_shift. f_equal; first [reflexivity | bits_eq]. Qed.
 Lemma py_sub_acc_spec acc sv pos : py_sub_acc acc sv pos = Ok (Z.lor acc (Z.shiftl sv pos)).
-Proof. reflexivity. Qed.
+Proof. unfold py_sub_acc. cbv zeta. f_equal; first [reflexivity | bits_eq]. Qed.
 
 (* ====================================================================== C. byte reversal *)
 Definition brev (n : nat) (v : Z) : Z := Z.of_N (le_dec (be_enc n (Z.to_N v))).
@@ -227,7 +255,9 @@ Definition wf_sreg (s : sreg) : Prop :=
 Definition wf_reg (r : reg) : Prop :=
   wf_sreg (r_base r) /\ Forall wf_sreg (r_subs r) /\
   (r_subs r <> [] -> exists sw, Forall (fun s => s_width s = sw) (r_subs r) /\
-                                Z.of_nat (length (r_subs r)) * sw = s_width (r_base r)).
+                                Z.of_nat (length (r_subs r)) * sw = s_width (r_base r)) /\
+  (* the own value of a group register is never written (Register._value stays 0) *)
+  (r_subs r <> [] -> s_value (r_base r) = 0).
 
 Definition wf_regs (g : regs) : Prop := Forall wf_reg (g_regs g).
 
@@ -510,7 +540,7 @@ Lemma group_shape r s0 t : wf_reg r -> r_subs r = s0 :: t ->
   0 < sw /\ Forall (fun s => s_width s = sw) (r_subs r) /\ Z.of_nat (length (r_subs r)) * sw = s_width (r_base r) /\
   Z.to_nat (s_width (r_base r) / sw) = length (r_subs r).
 Proof.
-  intros (Hb & Hs & Hg) E. cbn zeta.
+  intros (Hb & Hs & Hg & _) E. cbn zeta.
   destruct Hg as (sw & Hw & Hlen); [rewrite E; discriminate|].
   assert (s_width s0 = sw) by (rewrite E in Hw; now inversion Hw).
   subst sw. assert (0 < s_width s0) by (rewrite E in Hs; inversion Hs as [|? ? (P & _) _]; assumption).
@@ -534,14 +564,15 @@ Qed.
 
 Lemma reg_written_wf r V raw : wf_reg r -> in_range (s_width (r_base r)) V -> wf_reg (reg_written r V raw).
 Proof.
-  intros Hr HV. pose proof Hr as (Hb & Hs & Hg). pose proof Hb as (B1 & B2 & B3 & _).
+  intros Hr HV. pose proof Hr as (Hb & Hs & Hg & Hz). pose proof Hb as (B1 & B2 & B3 & _).
   assert (HV' : in_range (s_width (r_base r)) (view (s_reverse (r_base r)) raw (s_width (r_base r)) V)) by now apply view_range.
   unfold reg_written. destruct (r_subs r) as [|s0 t] eqn:E.
-  - unfold wf_reg. cbn. rewrite E. repeat split; try (now apply wf_set_value); try constructor. intros C; now destruct C.
+  - unfold wf_reg. cbn. rewrite E. split; [now apply wf_set_value|]. split; [constructor|]. split; intros C; now destruct C.
   - destruct (group_shape r s0 t Hr E) as (G1 & G2 & G3 & G4). rewrite E in *.
     destruct (subs_written_wf (s0 :: t) 1 (s_width (r_base r)) (s_width s0) (r_rev_sub r)
                 (view (s_reverse (r_base r)) raw (s_width (r_base r)) V) raw Hs G2) as (W1 & W2 & W3).
     unfold wf_reg. cbn [r_base r_subs set_subs_of]. split; [assumption|]. split; [assumption|].
+    split; [|intros _; apply Hz; discriminate].
     intros _. exists (s_width s0). split; [assumption|]. rewrite W3. assumption.
 Qed.
 
@@ -736,8 +767,9 @@ Proof.
     destruct (sreg_get_set (g_big g) s' V raw Hs HV) as (s2 & S1 & S2 & S3 & S4).
     rewrite S1. cbn [bind]. eexists. split; [reflexivity|].
     split.
-    { apply Forall_list_set; [assumption|]. destruct Hr as (R1 & R2 & R3). unfold wf_reg. cbn [r_base r_subs set_subs_of].
+    { apply Forall_list_set; [assumption|]. destruct Hr as (R1 & R2 & R3 & R4). unfold wf_reg. cbn [r_base r_subs set_subs_of].
       split; [assumption|]. split; [apply Forall_list_set; assumption|].
+      split; [|intros _; apply R4; intros C; rewrite C in E'; destruct j; discriminate].
       intros _. destruct R3 as (sw & W1 & W2); [intros C; rewrite C in E'; destruct j; discriminate|].
       exists sw. split; [|now rewrite list_set_length].
       apply Forall_list_set; [assumption|]. rewrite S4. eapply Forall_forall in W1; [exact W1|]. eapply nth_error_In; eassumption. }
@@ -959,6 +991,7 @@ Qed.
 Lemma load_fields_wf t l : forall g, wf_regs g -> keeps g (fst (load_fields g t l)).
 Proof.
   induction l as [|(k, v) rest IH]; intros g Hg; cbn [load_fields]; [now apply keeps_refl|].
+  destruct (t_field g t k); [|now apply keeps_refl].
   destruct (f_set_enum g t k v true) as [g1|] eqn:E; [|now apply keeps_refl].
   pose proof (f_set_enum_wf _ _ _ _ _ _ Hg E) as K. eapply keeps_trans; [exact K|]. apply IH, K.
 Qed.
@@ -1133,6 +1166,7 @@ Definition wf_reg_b (allow : bool) (r : reg) : bool :=
   match r_subs r with
   | [] => true
   | s0 :: _ => forallb (fun s => s_width s =? s_width s0) (r_subs r) && (Z.of_nat (length (r_subs r)) * s_width s0 =? s_width (r_base r))
+               && (s_value (r_base r) =? 0)
   end.
 (* allow = true: alternative widths permitted on top-level registers (the full quantifier of the property) *)
 Definition wf_regs_b (allow : bool) (g : regs) : bool := forallb (wf_reg_b allow) (g_regs g).
@@ -1154,11 +1188,13 @@ Lemma wf_regs_b_sound g : wf_regs_b false g = true -> wf_regs g.
 Proof.
   unfold wf_regs_b, wf_regs. intros H. apply Forall_forall. intros r Hr. rewrite forallb_forall in H. specialize (H r Hr).
   unfold wf_reg_b in H. apply andb_true_iff in H. destruct H as [H H3]. apply andb_true_iff in H. destruct H as [H1 H2].
-  split; [now apply wf_sreg_b_sound|]. split.
+  split; [now apply wf_sreg_b_sound|]. split; [|split].
   - apply Forall_forall. intros s Hs. rewrite forallb_forall in H2. now apply wf_sreg_b_sound, H2.
   - intros Hne. destruct (r_subs r) as [|s0 t] eqn:E; [congruence|]. exists (s_width s0).
-    apply andb_true_iff in H3. destruct H3 as [H3 H4]. split; [|lia].
+    apply andb_true_iff in H3. destruct H3 as [H3 H5]. apply andb_true_iff in H3. destruct H3 as [H3 H4]. split; [|lia].
     apply Forall_forall. intros s Hs. rewrite forallb_forall in H3. specialize (H3 s Hs). lia.
+  - intros Hne. destruct (r_subs r) as [|s0 t] eqn:E; [congruence|].
+    apply andb_true_iff in H3. destruct H3 as [H3 H5]. lia.
 Qed.
 
 (* ---------------------------------------------------------------- examples: the hypotheses are satisfiable *)
@@ -1222,4 +1258,539 @@ Proof.
   exists g. vm_compute in E. injection E as <-. eexists. eexists.
   split; [vm_compute; reflexivity|]. split; [vm_compute; reflexivity|]. split; [vm_compute; reflexivity|].
   split; [vm_compute; reflexivity|]. split; [vm_compute; reflexivity|]. vm_compute. discriminate.
+Qed.
+
+(* ====================================================================== I. export / parse *)
+(* ---------------------------------------------------------------- byte strings: disjoint splices *)
+Lemma slice_splice_same {A} (buf d : list A) off : (off + length d <= length buf)%nat ->
+  slice (splice buf off d) off (off + length d) = d.
+Proof. intros H. apply splice_slice. lia. Qed.
+
+Lemma skipn_skipn' {A} (l : list A) a b : skipn a (skipn b l) = skipn (b + a) l.
+Proof. revert l. induction b as [|b IH]; intros l; [reflexivity|]. destruct l; [now rewrite !skipn_nil|]. cbn. apply IH. Qed.
+
+Lemma slice_splice_disjoint {A} (buf d : list A) off a b : (a <= b)%nat -> (off + length d <= length buf)%nat ->
+  (b <= off \/ off + length d <= a)%nat -> slice (splice buf off d) a b = slice buf a b.
+Proof.
+  intros Hab Hin Hd. unfold slice, splice. destruct Hd as [Hd|Hd].
+  - rewrite skipn_app, firstn_length, Nat.min_l by lia.
+    rewrite firstn_app, skipn_length, firstn_length, Nat.min_l by lia.
+    replace (b - a - (off - a))%nat with 0%nat by lia. rewrite firstn_O, app_nil_r.
+    rewrite <- (firstn_skipn off buf) at 2.
+    rewrite skipn_app, firstn_length, Nat.min_l by lia.
+    rewrite firstn_app, skipn_length, firstn_length, Nat.min_l by lia.
+    replace (b - a - (off - a))%nat with 0%nat by lia. now rewrite firstn_O, app_nil_r.
+  - rewrite skipn_app, firstn_length, Nat.min_l by lia.
+    rewrite (skipn_all2 (firstn off buf)) by (rewrite firstn_length; lia). cbn [app].
+    rewrite skipn_app. rewrite (skipn_all2 d) by lia. cbn [app].
+    rewrite skipn_skipn'. f_equal. f_equal. lia.
+Qed.
+
+Definition place (buf : list N) (ims : list (nat * list N)) : list N :=
+  fold_left (fun b im => splice b (fst im) (snd im)) ims buf.
+
+Fixpoint ranges_from (lo : nat) (ims : list (nat * list N)) : Prop :=
+  match ims with
+  | [] => True
+  | (o, d) :: t => (lo <= o)%nat /\ ranges_from (o + length d) t
+  end.
+
+Fixpoint ranges_end (lo : nat) (ims : list (nat * list N)) : nat :=
+  match ims with [] => lo | (o, d) :: t => ranges_end (o + length d) t end.
+
+Lemma ranges_end_ge lo ims : ranges_from lo ims -> (lo <= ranges_end lo ims)%nat.
+Proof.
+  revert lo. induction ims as [|(o, d) t IH]; intros lo H; cbn in *; [lia|].
+  destruct H as (H1 & H2). specialize (IH _ H2). lia.
+Qed.
+
+Lemma place_length ims : forall buf lo, ranges_from lo ims -> (ranges_end lo ims <= length buf)%nat ->
+  length (place buf ims) = length buf.
+Proof.
+  induction ims as [|(o, d) t IH]; intros buf lo H Hb; cbn [place fold_left]; [reflexivity|].
+  cbn in H, Hb. destruct H as (H1 & H2). pose proof (ranges_end_ge _ _ H2).
+  change (fold_left _ t ?b) with (place b t).
+  cbn [fst snd]. rewrite (IH _ (o + length d)%nat) by (try assumption; rewrite splice_length; lia).
+  apply splice_length. lia.
+Qed.
+
+Lemma place_frame ims : forall buf lo a b, ranges_from lo ims -> (ranges_end lo ims <= length buf)%nat ->
+  (a <= b <= lo)%nat -> slice (place buf ims) a b = slice buf a b.
+Proof.
+  induction ims as [|(o, d) t IH]; intros buf lo a b H Hb Hab; cbn [place fold_left]; [reflexivity|].
+  cbn in H, Hb. destruct H as (H1 & H2). pose proof (ranges_end_ge _ _ H2).
+  change (fold_left _ t ?b) with (place b t). cbn [fst snd].
+  rewrite (IH _ (o + length d)%nat) by (try assumption; try (rewrite splice_length; lia); lia).
+  apply slice_splice_disjoint; lia.
+Qed.
+
+Lemma place_read ims : forall buf lo o d, ranges_from lo ims -> (ranges_end lo ims <= length buf)%nat ->
+  In (o, d) ims -> slice (place buf ims) o (o + length d) = d.
+Proof.
+  induction ims as [|(o', d') t IH]; intros buf lo o d H Hb Hin; [destruct Hin|].
+  cbn in H, Hb. destruct H as (H1 & H2). pose proof (ranges_end_ge _ _ H2).
+  cbn [place fold_left]. change (fold_left _ t ?b) with (place b t). cbn [fst snd].
+  destruct Hin as [E|Hin].
+  - injection E as -> ->.
+    rewrite (place_frame t _ (o + length d)%nat) by (try assumption; try (rewrite splice_length; lia); lia).
+    apply slice_splice_same. lia.
+  - apply (IH _ (o' + length d')%nat); try assumption. rewrite splice_length; lia.
+Qed.
+
+(* BinaryImage.add_image on ascending offsets appends *)
+Lemma insert_img_append x l : Forall (fun c => fst c <= fst x) l -> insert_img x l = l ++ [x].
+Proof.
+  induction 1 as [|c t Hc Ht IH]; cbn [insert_img app]; [reflexivity|].
+  replace (fst x <? fst c) with false by lia. now rewrite IH.
+Qed.
+
+(* ---------------------------------------------------------------- what export writes *)
+Definition enc (big : bool) (n : nat) (v : Z) : list N := (if big then be_enc else le_enc) n (Z.to_N v).
+
+Lemma enc_length big n v : length (enc big n v) = n.
+Proof. unfold enc. destruct big; [apply be_enc_length|apply le_enc_length]. Qed.
+
+Lemma dec_enc big n v : 0 <= v < 2 ^ (8 * Z.of_nat n) -> dec_bytes big (enc big n v) = v.
+Proof.
+  intros [Hv Hb]. unfold dec_bytes, enc.
+  assert ((Z.to_N v < 2 ^ (8 * N.of_nat n))%N) by (rewrite pow_N_Z; apply Z2N.inj_lt; lia).
+  destruct big; [rewrite be_dec_enc_small by assumption|rewrite le_dec_enc_small by assumption]; lia.
+Qed.
+
+Lemma vtb_spec v n big : 0 < n -> 0 <= v < 2 ^ (8 * n) ->
+  value_to_bytes_int v false n big = Ok (enc big (Z.to_nat n) v).
+Proof.
+  intros Hn [Hv Hb]. unfold value_to_bytes_int.
+  rewrite bytes_cnt_with_cnt by lia.
+  assert (Hcnt : (if v =? 0 then Ok n else if n <? width_spec v false then Err 1%N else Ok n) = Ok n).
+  { destruct (v =? 0) eqn:E0; [reflexivity|].
+    assert (width_spec v false <= n).
+    { unfold width_spec. rewrite E0. cbn. apply nbytes_minimal; lia. }
+    replace (n <? width_spec v false) with false by lia. reflexivity. }
+  rewrite Hcnt. unfold int_to_bytes.
+  replace ((v <? 0) || (n <? 0)) with false by lia.
+  replace (2 ^ (8 * n) <=? v) with false by lia. reflexivity.
+Qed.
+
+Definition reg_img (big : bool) (r : reg) : Z * list N :=
+  (s_offset (r_base r), enc big (Z.to_nat (s_width (r_base r) / 8)) (reg_stored r true)).
+
+Lemma view_raw reverse W v : view reverse true W v = v.
+Proof. reflexivity. Qed.
+
+Lemma reg_image_ok g i r : wf_regs g -> nth_error (g_regs g) i = Some r -> reg_image g i r = Ok (reg_img (g_big g) r).
+Proof.
+  intros Hg E. pose proof (wf_regs_nth g i r Hg E) as Hr. pose proof Hr as ((B1 & B2 & B3 & _) & _).
+  pose proof (reg_stored_range r true Hr) as HR. destruct (width_bytes _ B1 B2) as (P1 & P2 & P3).
+  unfold reg_image, t_bytes. cbn [t_sreg t_get]. rewrite E. cbn [option_map].
+  rewrite reg_get_ok by assumption. rewrite view_raw. cbn [bind]. rewrite B3. cbn [alt_width bind].
+  rewrite vtb_spec by (unfold in_range in HR; rewrite ?P2; lia). cbn [bind].
+  rewrite enc_length, Nat.eqb_refl. reflexivity.
+Qed.
+
+Lemma images_from_ok g : wf_regs g -> forall l i, (forall k r, nth_error l k = Some r -> nth_error (g_regs g) (i + k) = Some r) ->
+  images_from g i l = Ok (map (reg_img (g_big g)) l).
+Proof.
+  intros Hg. induction l as [|r t IH]; intros i H; cbn [images_from map]; [reflexivity|].
+  rewrite reg_image_ok by (try assumption; specialize (H 0%nat r eq_refl); now rewrite Nat.add_0_r in H). cbn [bind].
+  rewrite IH; [reflexivity|]. intros k r' Hk. specialize (H (S k) r' Hk). now rewrite Nat.add_succ_r in H.
+Qed.
+
+(* layout: ascending, non-overlapping byte ranges *)
+Fixpoint offsets_ok (lo : Z) (l : list reg) : Prop :=
+  match l with
+  | [] => True
+  | r :: t => lo <= s_offset (r_base r) /\ offsets_ok (s_offset (r_base r) + s_width (r_base r) / 8) t
+  end.
+Definition layout_ok (g : regs) : Prop := offsets_ok 0 (g_regs g).
+
+Definition nat_img (im : Z * list N) : nat * list N := (Z.to_nat (fst im), snd im).
+
+Lemma place_fold ims : forall buf,
+  fold_left (fun buf im => splice buf (Z.to_nat (fst im)) (snd im)) ims buf = place buf (map nat_img ims).
+Proof. induction ims as [|im t IH]; intros buf; cbn; [reflexivity|]. apply IH. Qed.
+
+Fixpoint asc (lo : Z) (ims : list (Z * list N)) : Prop :=
+  match ims with [] => True | im :: t => lo <= fst im /\ asc (fst im) t end.
+
+Lemma fold_insert_asc ims : forall acc hi, Forall (fun c => fst c <= hi) acc -> asc hi ims ->
+  fold_left (fun l x => insert_img x l) ims acc = acc ++ ims.
+Proof.
+  induction ims as [|x t IH]; intros acc hi Ha Hs; cbn [fold_left]; [now rewrite app_nil_r|].
+  cbn in Hs. destruct Hs as (H1 & H2).
+  rewrite insert_img_append by (eapply Forall_impl; [|exact Ha]; cbn; intros; lia).
+  rewrite (IH _ (fst x)); [now rewrite <- app_assoc| |assumption].
+  apply Forall_app. split; [eapply Forall_impl; [|exact Ha]; cbn; intros; lia|]. constructor; [lia|constructor].
+Qed.
+
+Lemma offsets_asc big l : forall lo, Forall wf_reg l -> offsets_ok lo l -> asc lo (map (reg_img big) l).
+Proof.
+  induction l as [|r t IH]; intros lo Hw H; cbn; [exact I|]. cbn in H. destruct H as (H1 & H2).
+  inversion Hw as [|? ? Hr Ht]; subst. split; [assumption|].
+  destruct Hr as ((B1 & B2 & _) & _). apply IH; [assumption|].
+  destruct t as [|r' t']; cbn in *; [exact I|]. destruct H2 as (H2 & H3). split; [lia|assumption].
+Qed.
+
+Lemma offsets_ranges big l : forall lo, 0 <= lo -> Forall wf_reg l -> offsets_ok lo l ->
+  ranges_from (Z.to_nat lo) (map nat_img (map (reg_img big) l)).
+Proof.
+  induction l as [|r t IH]; intros lo Hlo Hw H; cbn; [exact I|]. cbn in H. destruct H as (H1 & H2).
+  inversion Hw as [|? ? Hr Ht]; subst. destruct Hr as ((B1 & B2 & _) & _).
+  split; [lia|]. rewrite enc_length.
+  replace (Z.to_nat (s_offset (r_base r)) + Z.to_nat (s_width (r_base r) / 8))%nat
+    with (Z.to_nat (s_offset (r_base r) + s_width (r_base r) / 8)) by lia.
+  apply IH; (assumption || lia).
+Qed.
+
+Lemma image_size_acc (ims : list (Z * list N)) : forall m, m <= fold_left (fun m im => Z.max m (fst im + zlen (snd im))) ims m.
+Proof. induction ims as [|im t IH]; intros m; cbn; [lia|]. specialize (IH (Z.max m (fst im + zlen (snd im)))). lia. Qed.
+
+Lemma image_size_ge (ims : list (Z * list N)) : forall m im, In im ims ->
+  fst im + zlen (snd im) <= fold_left (fun m im => Z.max m (fst im + zlen (snd im))) ims m.
+Proof.
+  induction ims as [|x t IH]; intros m im Hin; [destruct Hin|]. cbn. destruct Hin as [->|Hin].
+  - pose proof (image_size_acc t (Z.max m (fst im + zlen (snd im)))). lia.
+  - now apply IH.
+Qed.
+
+Lemma ranges_end_bound ims : forall lo M, (lo <= M)%nat -> (forall o d, In (o, d) ims -> (o + length d <= M)%nat) ->
+  (ranges_end lo ims <= M)%nat.
+Proof.
+  induction ims as [|(o, d) t IH]; intros lo M Hlo H; cbn; [assumption|].
+  apply IH; [apply H; now left|]. intros o' d' Hin. apply H. now right.
+Qed.
+
+Lemma offsets_ge l : forall lo r, Forall wf_reg l -> offsets_ok lo l -> In r l -> lo <= s_offset (r_base r).
+Proof.
+  induction l as [|x t IH]; intros lo r Hw H Hin; [destruct Hin|]. cbn in H. destruct H as (H1 & H2).
+  inversion Hw as [|? ? Hx Ht]; subst. destruct Hin as [->|Hin]; [assumption|].
+  destruct Hx as ((B1 & B2 & _) & _). specialize (IH _ r Ht H2 Hin). lia.
+Qed.
+
+(* the bytes of every register are where the layout says *)
+Lemma export_ok g : wf_regs g -> layout_ok g ->
+  exists bin, export g = Ok bin /\
+    forall i r, nth_error (g_regs g) i = Some r ->
+      let o := Z.to_nat (s_offset (r_base r)) in let n := Z.to_nat (s_width (r_base r) / 8) in
+      (o + n <= length bin)%nat /\ slice bin o (o + n) = enc (g_big g) n (reg_stored r true).
+Proof.
+  intros Hg Hl. unfold export.
+  rewrite (images_from_ok g Hg (g_regs g) 0) by (intros k r H; exact H). cbn [bind].
+  set (ims := map (reg_img (g_big g)) (g_regs g)).
+  assert (Hasc : asc 0 ims) by (apply offsets_asc; assumption).
+  rewrite (fold_insert_asc ims [] 0) by (constructor || assumption). cbn [app].
+  rewrite place_fold. eexists. split; [reflexivity|].
+  assert (Hr : ranges_from 0 (map nat_img ims)) by (apply (offsets_ranges (g_big g) (g_regs g) 0); (assumption || lia)).
+  set (total := Z.to_nat (image_size ims)).
+  assert (Hend : forall o d, In (o, d) (map nat_img ims) -> (o + length d <= total)%nat).
+  { intros o d Hin. apply in_map_iff in Hin. destruct Hin as (im & E & Hin). unfold nat_img in E. injection E as <- <-.
+    pose proof (image_size_ge ims 0 im Hin) as Hge. unfold total, image_size. unfold zlen in *.
+    assert (0 <= fst im).
+    { unfold ims in Hin. apply in_map_iff in Hin. destruct Hin as (r & <- & Hin). cbn.
+      exact (offsets_ge (g_regs g) 0 r Hg Hl Hin). }
+    lia. }
+  assert (Hre : (ranges_end 0 (map nat_img ims) <= length (zeros total))%nat).
+  { unfold zeros. rewrite repeat_length. apply ranges_end_bound; [lia|exact Hend]. }
+  intros i r E. cbv zeta.
+  assert (Hin : In (nat_img (reg_img (g_big g) r)) (map nat_img ims)).
+  { apply in_map, in_map. eapply nth_error_In; eassumption. }
+  pose proof (Hend _ _ Hin) as Hb. pose proof (place_read _ _ _ _ _ Hr Hre Hin) as Hrd.
+  unfold nat_img, reg_img in Hb, Hrd. cbn [fst snd] in Hb, Hrd. rewrite enc_length in Hb, Hrd.
+  rewrite (place_length _ _ 0%nat) by assumption. unfold zeros at 1. rewrite repeat_length.
+  split; assumption.
+Qed.
+
+(* ---------------------------------------------------------------- what parse reads *)
+Lemma set_value_erase s1 s v : erase_s s1 = erase_s s -> set_value s1 v = set_value s v.
+Proof. destruct s1, s. unfold erase_s, set_value. cbn. intros H. injection H. intros; subst. reflexivity. Qed.
+
+Lemma set_value_self s : set_value s (s_value s) = s.
+Proof. now destruct s. Qed.
+
+Lemma cons_eq_inv {A} (a b : A) l m : a :: l = b :: m -> a = b /\ l = m.
+Proof. intros H. now injection H. Qed.
+
+Lemma erase_r_inv r1 r : erase_r r1 = erase_r r ->
+  erase_s (r_base r1) = erase_s (r_base r) /\ r_rev_sub r1 = r_rev_sub r /\ map erase_s (r_subs r1) = map erase_s (r_subs r).
+Proof. intros H. repeat split; [exact (f_equal r_base H)|exact (f_equal r_rev_sub H)|exact (f_equal r_subs H)]. Qed.
+
+Lemma regs_eq_inv g g1 : erase g = erase g1 -> g_big g = g_big g1 /\ map erase_r (g_regs g) = map erase_r (g_regs g1).
+Proof. intros H. split; [exact (f_equal g_big H)|exact (f_equal g_regs H)]. Qed.
+
+Lemma subs_restore subs : forall subs1 idx W sw rev V, map erase_s subs1 = map erase_s subs ->
+  (forall k s, nth_error subs k = Some s -> getbits V (sub_pos W (idx + Z.of_nat k) sw rev) sw = s_value s) ->
+  subs_written subs1 idx W sw rev V true = subs.
+Proof.
+  induction subs as [|s t IH]; intros [|s1 t1] idx W sw rev V E H; cbn [map] in E; try discriminate; [reflexivity|].
+  apply cons_eq_inv in E. destruct E as (E1 & E2). cbn [subs_written]. f_equal.
+  - rewrite view_raw. rewrite (set_value_erase s1 s) by assumption.
+    pose proof (H 0%nat s eq_refl) as H0. replace (idx + Z.of_nat 0) with idx in H0 by lia.
+    assert (Ew : s_width s1 = s_width s) by (destruct (erase_s_fields s s1 E1) as (_ & W' & _); exact W').
+    rewrite H0. apply set_value_self.
+  - apply IH; [assumption|]. intros k s' Hk. specialize (H (S k) s' Hk).
+    replace (idx + 1 + Z.of_nat k) with (idx + Z.of_nat (S k)) by lia. exact H.
+Qed.
+
+Lemma reg_eq r r' : r_base r' = r_base r -> r_rev_sub r' = r_rev_sub r -> r_subs r' = r_subs r -> r' = r.
+Proof. destruct r, r'. cbn. intros; subst. reflexivity. Qed.
+
+Lemma sreg_eq s s' : erase_s s' = erase_s s -> s_value s' = s_value s -> s' = s.
+Proof. intros E V. rewrite <- (set_value_self s'), <- (set_value_self s), V. now apply set_value_erase. Qed.
+
+Lemma reg_written_restore r1 r : wf_reg r -> wf_reg r1 -> erase_r r1 = erase_r r -> reg_written r1 (reg_stored r true) true = r.
+Proof.
+  intros Hr Hr1 E. destruct (erase_r_inv r1 r E) as (Eb & Erv & Es).
+  destruct (erase_s_fields (r_base r) (r_base r1) Eb) as (_ & Ew & Erev & _).
+  unfold reg_written, reg_stored. rewrite view_raw.
+  destruct (r_subs r) as [|s0 t] eqn:Esr.
+  - destruct (r_subs r1) as [|s01 t1] eqn:Esr1; [|discriminate].
+    apply reg_eq; cbn [r_base r_rev_sub r_subs set_base]; [|assumption|congruence].
+    rewrite (set_value_erase _ _ _ Eb). apply set_value_self.
+  - destruct (r_subs r1) as [|s01 t1] eqn:Esr1; [discriminate|].
+    assert (Ew0 : s_width s01 = s_width s0).
+    { cbn [map] in Es. apply cons_eq_inv in Es. destruct Es as (Es0 & _).
+      now destruct (erase_s_fields s0 s01 Es0) as (_ & W' & _). }
+    destruct (group_shape r s0 t Hr Esr) as (G1 & G2 & G3 & G4). pose proof Hr as (_ & Hsubs & _ & Hz).
+    pose proof Hr1 as (_ & _ & _ & Hz1). rewrite Esr in *. rewrite Esr1 in Hz1.
+    apply reg_eq; cbn [r_base r_rev_sub r_subs set_subs_of]; [|assumption|].
+    + apply sreg_eq; [assumption|]. rewrite Hz, Hz1 by discriminate. reflexivity.
+    + rewrite Esr, Ew, Ew0, Erv. apply subs_restore; [exact Es|].
+      intros k s Hk.
+      assert (Hsl := slice_of_concat (sviews true (s0 :: t)) (s_width (r_base r)) (s_width s0) (r_rev_sub r) k (s_value s) G1).
+      rewrite Hsl; [reflexivity|now apply sviews_range| |].
+      * intros _. unfold sviews. rewrite map_length. lia.
+      * unfold sviews. rewrite nth_error_map, Hk. reflexivity.
+Qed.
+
+Definition parsed_reg (big : bool) (bin : list N) (r1 : reg) : reg :=
+  let b := r_base r1 in
+  if s_hidden b then r1
+  else reg_written r1 (dec_bytes big (slice bin (Z.to_nat (s_offset b)) (Z.to_nat (s_offset b + s_width b / 8)))) true.
+
+Lemma parse_from_spec bin n : forall i g1, wf_regs g1 -> (i + n = length (g_regs g1))%nat ->
+  (forall k r1, (i <= k)%nat -> nth_error (g_regs g1) k = Some r1 -> s_hidden (r_base r1) = false ->
+     s_offset (r_base r1) + s_width (r_base r1) / 8 <= zlen bin /\
+     in_range (s_width (r_base r1))
+       (dec_bytes (g_big g1) (slice bin (Z.to_nat (s_offset (r_base r1))) (Z.to_nat (s_offset (r_base r1) + s_width (r_base r1) / 8))))) ->
+  exists g', parse_from g1 bin i n = Ok g' /\ g_big g' = g_big g1 /\
+    (forall k, (k < i)%nat -> nth_error (g_regs g') k = nth_error (g_regs g1) k) /\
+    (forall k r1, (i <= k)%nat -> nth_error (g_regs g1) k = Some r1 -> nth_error (g_regs g') k = Some (parsed_reg (g_big g1) bin r1)).
+Proof.
+  induction n as [|n IH]; intros i g1 Hg Hlen H; cbn [parse_from].
+  - exists g1. split; [reflexivity|]. split; [reflexivity|]. split; [reflexivity|].
+    intros k r1 Hk E. assert ((k < length (g_regs g1))%nat) by (apply nth_error_Some; congruence). lia.
+  - destruct (nth_error (g_regs g1) i) as [r|] eqn:E; [|apply nth_error_None in E; lia].
+    destruct (s_hidden (r_base r)) eqn:Eh.
+    + destruct (IH (S i) g1 Hg) as (g' & P1 & P2 & P3 & P4); [lia|intros k r1 Hk; apply (H k r1); lia|].
+      exists g'. split; [assumption|]. split; [assumption|]. split; [intros k Hk; apply P3; lia|].
+      intros k r1 Hk Ek. destruct (Nat.eq_dec k i) as [->|Hne].
+      * rewrite P3 by lia. rewrite E in Ek. injection Ek as <-. rewrite E. unfold parsed_reg. now rewrite Eh.
+      * apply P4; [lia|assumption].
+    + destruct (H i r (le_n i) E Eh) as (Hfit & Hrange).
+      replace (zlen bin <? s_offset (r_base r) + s_width (r_base r) / 8) with false by lia.
+      cbn [t_set]. rewrite E. pose proof (wf_regs_nth g1 i r Hg E) as Hr.
+      rewrite reg_set_ok by assumption. cbn [bind].
+      set (g2 := set_regs g1 (list_set (g_regs g1) i (reg_written r _ true))).
+      assert (Hi : (i < length (g_regs g1))%nat) by (apply nth_error_Some; congruence).
+      assert (Hg2 : wf_regs g2) by (apply Forall_list_set; [assumption|now apply reg_written_wf]).
+      destruct (IH (S i) g2 Hg2) as (g' & P1 & P2 & P3 & P4).
+      { unfold g2. cbn [g_regs set_regs]. rewrite list_set_length. lia. }
+      { intros k r1 Hk Ek. unfold g2 in Ek. cbn [g_regs set_regs] in Ek. rewrite nth_error_list_set_other in Ek by lia.
+        apply (H k r1); (assumption || lia). }
+      exists g'. split; [assumption|]. split; [now rewrite P2|]. split.
+      * intros k Hk. rewrite P3 by lia. unfold g2. cbn [g_regs set_regs]. apply nth_error_list_set_other. lia.
+      * intros k r1 Hk Ek. destruct (Nat.eq_dec k i) as [->|Hne].
+        -- rewrite P3 by lia. unfold g2. cbn [g_regs set_regs]. rewrite nth_error_list_set_same by assumption.
+           rewrite E in Ek. injection Ek as <-. unfold parsed_reg. now rewrite Eh.
+        -- rewrite (P4 k r1); [reflexivity|lia|]. unfold g2. cbn [g_regs set_regs]. rewrite nth_error_list_set_other by lia. assumption.
+Qed.
+
+Lemma same_layout_nth g g1 i r : same_layout g g1 -> nth_error (g_regs g) i = Some r ->
+  exists r1, nth_error (g_regs g1) i = Some r1 /\ erase_r r1 = erase_r r.
+Proof.
+  intros H E. unfold same_layout in H. destruct (regs_eq_inv g g1 H) as (Hb & Hm).
+  assert (E1 : nth_error (map erase_r (g_regs g)) i = Some (erase_r r)) by (rewrite nth_error_map, E; reflexivity).
+  rewrite Hm, nth_error_map in E1. destruct (nth_error (g_regs g1) i) as [r1|]; [|discriminate].
+  exists r1. split; [reflexivity|]. cbn in E1. congruence.
+Qed.
+
+(* parse (export g) restores every non-hidden register of g, whatever the receiving object held *)
+Lemma export_parse_lemma g g1 : wf_regs g -> wf_regs g1 -> same_layout g g1 -> layout_ok g ->
+  exists bin g', export g = Ok bin /\ parse g1 bin = Ok g' /\
+    forall i r, nth_error (g_regs g) i = Some r ->
+      (s_hidden (r_base r) = false -> nth_error (g_regs g') i = Some r) /\
+      (s_hidden (r_base r) = true -> nth_error (g_regs g') i = nth_error (g_regs g1) i).
+Proof.
+  intros Hg Hg1 Hsl Hl. destruct (export_ok g Hg Hl) as (bin & Ex & Hbin).
+  assert (Hbig : g_big g1 = g_big g) by (destruct (regs_eq_inv g g1 Hsl); congruence).
+  assert (Hsl' : same_layout g1 g) by (symmetry; exact Hsl).
+  assert (Hpre : forall k r1, (0 <= k)%nat -> nth_error (g_regs g1) k = Some r1 -> s_hidden (r_base r1) = false ->
+     s_offset (r_base r1) + s_width (r_base r1) / 8 <= zlen bin /\
+     in_range (s_width (r_base r1))
+       (dec_bytes (g_big g1) (slice bin (Z.to_nat (s_offset (r_base r1))) (Z.to_nat (s_offset (r_base r1) + s_width (r_base r1) / 8))))).
+  { intros k r1 _ Ek Eh. destruct (same_layout_nth g1 g k r1 Hsl' Ek) as (r & Er & Ee).
+    destruct (erase_r_inv r r1 Ee) as (Eb & _ & _). destruct (erase_s_fields (r_base r1) (r_base r) Eb) as (_ & Ew & _ & _ & _ & _ & _ & _ & Eo).
+    pose proof (wf_regs_nth g k r Hg Er) as Hr. pose proof Hr as ((B1 & B2 & _) & _).
+    destruct (width_bytes _ B1 B2) as (Q1 & Q2 & Q3).
+    assert (Ho : 0 <= s_offset (r_base r)) by (apply (offsets_ge (g_regs g) 0 r Hg Hl); eapply nth_error_In; eassumption).
+    destruct (Hbin k r Er) as (Hfit & Hsl2). cbv zeta in Hfit, Hsl2.
+    rewrite <- Ew, <- Eo in *.
+    replace (Z.to_nat (s_offset (r_base r) + s_width (r_base r) / 8))
+      with (Z.to_nat (s_offset (r_base r)) + Z.to_nat (s_width (r_base r) / 8))%nat by lia.
+    rewrite Hsl2, Hbig, dec_enc by (rewrite Q3; apply reg_stored_range; assumption).
+    split; [unfold zlen; lia|now apply reg_stored_range]. }
+  destruct (parse_from_spec bin (length (g_regs g1)) 0 g1 Hg1 eq_refl Hpre) as (g' & P1 & P2 & P3 & P4).
+  exists bin, g'. split; [assumption|]. split; [exact P1|].
+  intros i r Er. destruct (same_layout_nth g g1 i r Hsl Er) as (r1 & Er1 & Ee).
+  rewrite (P4 i r1 (Nat.le_0_l i) Er1). unfold parsed_reg.
+  destruct (erase_r_inv r1 r Ee) as (Eb & _ & _).
+  destruct (erase_s_fields (r_base r) (r_base r1) Eb) as (_ & Ew & _ & _ & _ & _ & _ & Ehid & Eo).
+  split; intros Eh; rewrite Ehid, Eh; [|now rewrite Er1].
+  pose proof (wf_regs_nth g i r Hg Er) as Hr. pose proof Hr as ((B1 & B2 & _) & _).
+  destruct (width_bytes _ B1 B2) as (Q1 & Q2 & Q3).
+  assert (Ho : 0 <= s_offset (r_base r)) by (apply (offsets_ge (g_regs g) 0 r Hg Hl); eapply nth_error_In; eassumption).
+  destruct (Hbin i r Er) as (Hfit & Hsl2). cbv zeta in Hfit, Hsl2.
+  rewrite Ew, Eo.
+  replace (Z.to_nat (s_offset (r_base r) + s_width (r_base r) / 8))
+    with (Z.to_nat (s_offset (r_base r)) + Z.to_nat (s_width (r_base r) / 8))%nat by lia.
+  rewrite Hsl2, Hbig, dec_enc by (rewrite Q3; apply reg_stored_range; assumption).
+  f_equal. apply reg_written_restore; try assumption. eapply wf_regs_nth; eassumption.
+Qed.
+
+Lemma layout_ok_same g g' : same_layout g g' -> layout_ok g -> layout_ok g'.
+Proof.
+  intros H. destruct (regs_eq_inv g g' H) as (_ & Hm). unfold layout_ok. generalize 0.
+  revert Hm. generalize (g_regs g') as l'. induction (g_regs g) as [|r t IH]; intros [|r' t'] Hm lo Hl; cbn [map] in Hm; try discriminate; [exact I|].
+  apply cons_eq_inv in Hm. destruct Hm as (E1 & E2). destruct (erase_r_inv r r' E1) as (Eb & _ & _).
+  destruct (erase_s_fields (r_base r') (r_base r) Eb) as (_ & Ew & _ & _ & _ & _ & _ & _ & Eo).
+  cbn in *. destruct Hl as (H1 & H2). rewrite <- Ew, <- Eo. split; [assumption|]. now apply IH.
+Qed.
+
+Example ex_regs_layout_ok : layout_ok ex_regs.
+Proof. unfold layout_ok. cbn. repeat split; try apply Z.leb_le; vm_compute; reflexivity. Qed.
+
+Example ex_export_parse :
+  exists g b g', step ex_regs ex_regs (OSetReg (Top 0) (VStr [48; 120; 97; 98; 99]%N) false) = (g, VList []) /\
+                 export g = Ok b /\ length b = 52%nat /\ parse ex_regs b = Ok g' /\ g' = g.
+Proof. eexists. eexists. eexists. split; [vm_compute; reflexivity|]. split; [vm_compute; reflexivity|]. split; [reflexivity|].
+  split; vm_compute; reflexivity. Qed.
+
+(* ====================================================================== J. configuration (numeric part) *)
+Lemma pre_post hp c b : 0 <= c -> cp_pre hp c (cp_post hp c b) = b.
+Proof.
+  intros Hc. unfold cp_pre, cp_post. destruct hp; [|reflexivity].
+  rewrite Z.shiftr_shiftl_l by lia. replace (c - c) with 0 by lia. apply Z.shiftl_0_r.
+Qed.
+
+(* the configuration of one register as numbers: bit-field k -> bitfield.get_value() *)
+Fixpoint numeric_cfg (k : nat) (fs : list field) (V : Z) : list (nat * value) :=
+  match fs with
+  | [] => []
+  | f :: rest => (k, VInt (post_of f (fbits f V))) :: numeric_cfg (S k) rest V
+  end.
+
+Definition apply_fields (S : Z) (fs : list field) (V : Z) : Z :=
+  fold_left (fun S f => setbits S (f_off f) (f_width f) (fbits f V)) fs S.
+
+Definition covered (fs : list field) (n : Z) : bool :=
+  existsb (fun f => (f_off f <=? n) && (n <? f_off f + f_width f)) fs.
+
+(* the bit-fields tile the register: every bit belongs to some bit-field *)
+Definition tiles (fs : list field) (W : Z) : Prop := forall n, 0 <= n < W -> covered fs n = true.
+
+Lemma testbit_apply_fields W V fs : Forall (wf_field W) fs -> forall S n, 0 <= n ->
+  Z.testbit (apply_fields S fs V) n = if covered fs n then Z.testbit V n else Z.testbit S n.
+Proof.
+  intros Hw. induction Hw as [|f t (F1 & F2 & F3 & F4) Ht IH]; intros S n Hn; cbn [apply_fields fold_left covered existsb]; [reflexivity|].
+  change (fold_left _ t ?x) with (apply_fields x t V). rewrite IH by assumption.
+  fold (covered t n). destruct (covered t n); [now rewrite orb_true_r|]. rewrite orb_false_r.
+  rewrite testbit_setbits by lia.
+  destruct ((f_off f <=? n) && (n <? f_off f + f_width f)) eqn:E; [|reflexivity].
+  unfold fbits. rewrite testbit_getbits by lia. replace (n - f_off f + f_off f) with n by lia.
+  replace (n - f_off f <? f_width f) with true by lia. now rewrite andb_true_r.
+Qed.
+
+Lemma apply_fields_tiled W S V fs : 0 <= W -> Forall (wf_field W) fs -> tiles fs W -> in_range W S -> in_range W V ->
+  apply_fields S fs V = V.
+Proof.
+  intros HW Hw Ht HS HV. apply Z.bits_inj'. intros n Hn. rewrite (testbit_apply_fields W) by assumption.
+  destruct (Z.ltb_spec n W).
+  - now rewrite Ht by lia.
+  - rewrite (small_bits S W n), (small_bits V W n) by (assumption || lia). now destruct (covered fs n).
+Qed.
+
+Lemma load_fields_numeric V t : forall fs k0 g1 s St, wf_regs g1 -> t_sreg g1 t = Some s ->
+  (forall j f, nth_error fs j = Some f -> t_field g1 t (k0 + j) = Some f) ->
+  t_get g1 t true = Ok St ->
+  exists g2 s2, load_fields g1 t (numeric_cfg k0 fs V) = (g2, Ok tt) /\ wf_regs g2 /\ same_layout g1 g2 /\
+                t_sreg g2 t = Some s2 /\ t_get g2 t true = Ok (apply_fields St fs V).
+Proof.
+  induction fs as [|f rest IH]; intros k0 g1 s St Hg Hs Hf HS; cbn [numeric_cfg load_fields apply_fields fold_left].
+  - exists g1, s. repeat split; solve [assumption | reflexivity].
+  - assert (Hf0 : t_field g1 t k0 = Some f) by (specialize (Hf 0%nat f eq_refl); now rewrite Nat.add_0_r in Hf).
+    destruct (t_field_wf g1 t k0 f s Hg Hs Hf0) as (F1 & F2 & F3 & F4).
+    assert (Hp : in_range (f_width f) (pre_of f (post_of f (fbits f V)) false)).
+    { unfold pre_of, post_of. rewrite pre_post by assumption. apply getbits_range. lia. }
+    destruct (f_set_int_ok g1 t k0 f s _ true false Hg Hs Hf0 Hp) as (g' & rv & G1 & G2 & S1 & S2 & S3 & S4 & _).
+    rewrite HS in G1. injection G1 as <-.
+    rewrite Hf0. unfold f_set_enum. rewrite Hf0. cbn [to_int bind]. rewrite S1.
+    unfold pre_of, post_of in S4. rewrite pre_post in S4 by assumption.
+    destruct (same_layout_sreg g1 g' t s S3 Hs) as (s' & Hs' & _).
+    assert (Hf' : forall j f', nth_error rest j = Some f' -> t_field g' t (S k0 + j) = Some f').
+    { intros j f' Hj. rewrite (same_layout_field g1 g' t _ S3). specialize (Hf (S j) f' Hj). now rewrite Nat.add_succ_r in Hf. }
+    destruct (IH (S k0) g' s' _ S2 Hs' Hf' S4) as (g2 & s2 & L1 & L2 & L3 & L4 & L5).
+    exists g2, s2. split; [exact L1|]. split; [assumption|]. split; [eapply same_layout_trans; eassumption|]. split; assumption.
+Qed.
+
+(* loading the numeric configuration of a tiled register into any object of the same layout restores its value *)
+Lemma config_numeric_lemma g1 t s V : wf_regs g1 -> t_sreg g1 t = Some s -> in_range (s_width s) V ->
+  tiles (s_fields s) (s_width s) ->
+  exists g2, load_entry g1 t (CFields (numeric_cfg 0 (s_fields s) V)) = (g2, Ok tt) /\ wf_regs g2 /\ same_layout g1 g2 /\
+             t_get g2 t false = Ok V /\
+             (forall k f, t_field g1 t k = Some f -> f_get g2 t k = Ok (post_of f (fbits f V))).
+Proof.
+  intros Hg Hs HV Ht. destruct (t_get_total g1 t s true Hg Hs) as (St & HS & HSr).
+  destruct (load_fields_numeric V t (s_fields s) 0 g1 s St Hg Hs) as (g2 & s2 & L1 & L2 & L3 & L4 & L5); [|assumption|].
+  { intros j f Hj. unfold t_field. now rewrite Hs. }
+  pose proof (t_sreg_wf g1 t s Hg Hs) as (B1 & _ & _ & BF & _).
+  rewrite (apply_fields_tiled (s_width s)) in L5 by (assumption || lia).
+  destruct (same_layout_sreg g1 g2 t s L3 Hs) as (s2' & Hs2 & Es).
+  destruct (erase_s_fields s s2' Es) as (_ & Ew & _).
+  assert (HV2 : in_range (s_width s2') V) by now rewrite Ew.
+  destruct (t_set_ok g2 t s2' V false L2 Hs2 HV2) as (g3 & T1 & T2 & T3 & T4 & _).
+  exists g3. split.
+  { unfold load_entry. rewrite Hs, L1, L5. cbn [bind]. rewrite T1. reflexivity. }
+  split; [assumption|]. split; [eapply same_layout_trans; eassumption|]. split; [assumption|].
+  intros k f Hf. destruct (t_field_wf g1 t k f s Hg Hs Hf) as (F1 & F2 & _).
+  apply f_get_of; try assumption.
+  rewrite (same_layout_field g2 g3 t k T3), (same_layout_field g1 g2 t k L3). assumption.
+Qed.
+
+Lemma config_roundtrip_lemma g g1 t s V : wf_regs g -> wf_regs g1 -> same_layout g g1 ->
+  t_sreg g t = Some s -> tiles (s_fields s) (s_width s) -> t_get g t false = Ok V ->
+  (forall k f, t_field g t k = Some f -> f_get g t k = Ok (post_of f (fbits f V))) /\
+  exists g2, load_entry g1 t (CFields (numeric_cfg 0 (s_fields s) V)) = (g2, Ok tt) /\ wf_regs g2 /\ same_layout g g2 /\
+             t_get g2 t false = Ok V /\
+             (forall k f, t_field g t k = Some f -> f_get g2 t k = f_get g t k).
+Proof.
+  intros Hg Hg1 Hsl Hs Ht HV.
+  assert (Hget : forall k f, t_field g t k = Some f -> f_get g t k = Ok (post_of f (fbits f V))).
+  { intros k f Hf. destruct (t_field_wf g t k f s Hg Hs Hf) as (_ & F2 & _). now apply f_get_of. }
+  split; [exact Hget|].
+  destruct (t_get_total g t s false Hg Hs) as (V' & HV' & HVr). rewrite HV in HV'. injection HV' as <-.
+  destruct (same_layout_sreg g g1 t s Hsl Hs) as (s1 & Hs1 & Es).
+  destruct (erase_s_fields s s1 Es) as (Ef & Ew & _).
+  assert (HV1 : in_range (s_width s1) V) by now rewrite Ew.
+  assert (Ht1 : tiles (s_fields s1) (s_width s1)) by now rewrite Ef, Ew.
+  destruct (config_numeric_lemma g1 t s1 V Hg1 Hs1 HV1 Ht1) as (g2 & C1 & C2 & C3 & C4 & C5).
+  exists g2. rewrite <- Ef. split; [assumption|]. split; [assumption|]. split; [eapply same_layout_trans; eassumption|].
+  split; [assumption|]. intros k f Hf. rewrite (Hget k f Hf). apply C5. now rewrite (same_layout_field g g1 t k Hsl).
+Qed.
+
+Example ex_plain_tiles : tiles (s_fields (r_base ex_plain)) 32.
+Proof.
+  intros n Hn. unfold covered. cbn.
+  destruct (Z.ltb_spec n 4); [replace (0 <=? n) with true by lia; reflexivity|].
+  destruct (Z.ltb_spec n 16); [replace (4 <=? n) with true by lia; cbn; now rewrite ?orb_true_r|].
+  replace (16 <=? n) with true by lia. replace (n <? 32) with true by lia. cbn. now rewrite ?orb_true_r.
 Qed.
